@@ -79,12 +79,16 @@ func (l *lexer) isSpace(r rune) bool {
 	return false
 }
 
+// The XML name tables differ between editions; the recogniser is generous
+// (every non-ASCII character that is not white space may be part of a name)
+// and Strict separately refuses to vouch for names outside a conservative
+// alphabet.
 func nameStart(r rune) bool {
-	return unicode.IsLetter(r) || r == '_' || r == '#'
+	return unicode.IsLetter(r) || r == '_' || r == '#' || r > 0x7F && !unicode.IsSpace(r)
 }
 
 func nameChar(r rune) bool {
-	return unicode.IsLetter(r) || unicode.IsDigit(r) || r == '.' || r == '-' || r == '_' || r == '#' ||
+	return r > 0x7F && !unicode.IsSpace(r) || unicode.IsLetter(r) || unicode.IsDigit(r) || r == '.' || r == '-' || r == '_' || r == '#' ||
 		unicode.Is(unicode.Mn, r) || unicode.Is(unicode.Mc, r) || r == 0xB7 || r == 0x387 || unicode.Is(unicode.Lm, r) || unicode.Is(unicode.Nd, r)
 }
 
@@ -171,6 +175,17 @@ var axisNames = map[string]bool{"ancestor": true, "ancestor-or-self": true, "att
 	"preceding-sibling": true, "self": true}
 var opNames = map[string]bool{"and": true, "or": true, "mod": true, "div": true}
 
+// reservedWord: the generated lexer turns these spellings into keyword
+// tokens, so they cannot be function names (or parts of them).
+func reservedWord(q string) bool {
+	for _, part := range strings.Split(q, ":") {
+		if axisNames[part] || opNames[part] || nodeTypes[part] {
+			return true
+		}
+	}
+	return false
+}
+
 func (l *lexer) next() (token, error) {
 	t, err := l.scan()
 	if err == nil {
@@ -223,10 +238,20 @@ func (l *lexer) scan() (token, error) {
 		return token{}, fmt.Errorf("'!' without '='")
 	case r == '"' || r == '\'':
 		j := l.i + 1
-		for j < len(l.rs) && l.rs[j] != r {
-			if l.rs[j] == '\\' && l.mode == Lenient && j+1 < len(l.rs) {
-				l.Features["backslash-in-literal"] = true
-				j++ // an escaped character (the generated lexer reads escapes)
+		for j < len(l.rs) {
+			if l.rs[j] == r {
+				// a quote after a backslash: XPath ends the literal here; the
+				// generated lexer may also read an escape (both are tried)
+				if l.mode == Lenient && l.rs[j-1] == '\\' && j-1 > l.i {
+					k := l.nAmbig
+					l.nAmbig++
+					if k < 10 && l.choices&(1<<uint(k)) != 0 {
+						l.Features["backslash-in-literal"] = true
+						j++
+						continue
+					}
+				}
+				break
 			}
 			j++
 		}
@@ -236,6 +261,9 @@ func (l *lexer) scan() (token, error) {
 		v := string(l.rs[l.i+1 : j])
 		if l.mode == Strict && r == '"' && strings.Contains(v, "\\") {
 			return token{}, fmt.Errorf("known finding: backslash in a double-quoted literal")
+		}
+		if l.mode == Strict && strings.HasSuffix(v, "\\") {
+			return token{}, fmt.Errorf("known finding: literal ending in a backslash")
 		}
 		l.i = j + 1
 		return token{tLiteral, v}, nil
@@ -251,6 +279,13 @@ func (l *lexer) scan() (token, error) {
 		q, err := l.qname()
 		if err != nil {
 			return token{}, fmt.Errorf("bad variable reference: %v", err)
+		}
+		// Lenient: the generated lexer's variable token is a repetition of
+		// names, so "$a:bb:c" is read as (a:b)(b:c) and accepted (known finding)
+		for l.mode == Lenient && l.i+1 < len(l.rs) && l.rs[l.i] == ':' && l.rs[l.i+1] != ':' && nameStart(l.rs[l.i+1]) {
+			l.i++
+			l.ncname()
+			l.Features["variable-reference-extra-colon"] = true
 		}
 		return token{tVar, q}, nil
 	case r == '*':
@@ -322,6 +357,9 @@ func (l *lexer) scan() (token, error) {
 		if a == '(' {
 			if nodeTypes[name] {
 				return token{tNodeType, name}, nil
+			}
+			if l.mode == Strict && reservedWord(name) {
+				return token{}, fmt.Errorf("known finding: function name spelled like an axis or operator")
 			}
 			return token{tFunc, name}, nil
 		}
@@ -418,12 +456,15 @@ func Parse(text string, mode Mode) (e *xast.Expr, features map[string]bool, err 
 	if err == nil || mode == Strict || nAmbig == 0 {
 		return e, features, err
 	}
-	if nAmbig > 10 {
-		nAmbig = 10
-	}
-	for c := uint(1); c < 1<<uint(nAmbig); c++ {
-		if e2, f2, _, err2 := parseWith(text, mode, c); err2 == nil {
+	// an attempt that fails early sees only some of the ambiguous points;
+	// later attempts may reveal more
+	for c := uint(1); c < 1<<uint(nAmbig) && c < 1<<10; c++ {
+		e2, f2, n2, err2 := parseWith(text, mode, c)
+		if err2 == nil {
 			return e2, f2, nil
+		}
+		if n2 > nAmbig {
+			nAmbig = n2
 		}
 	}
 	return nil, features, err
@@ -703,8 +744,16 @@ func (p *parser) primary() *xast.Expr {
 	case tNumber:
 		e := xast.Num(p.tok.s)
 		p.advance()
-		// Lenient: "1 . 5" - the generated parser assembles a Number from
-		// separate tokens
+		// Lenient: "1 . 5", "0 .5", "0. 5" - the generated parser assembles a
+		// Number from separate tokens
+		if p.mode == Lenient && p.tok.k == tNumber {
+			if (!strings.Contains(e.S, ".") && strings.HasPrefix(p.tok.s, ".")) || (strings.HasSuffix(e.S, ".") && !strings.Contains(p.tok.s, ".")) {
+				e.S += p.tok.s
+				p.lx.Features["number-split-by-space"] = true
+				p.advance()
+				return e
+			}
+		}
 		if p.mode == Lenient && p.isPunct(".") {
 			save := *p.lx
 			savedTok := p.tok
